@@ -42,7 +42,7 @@ def b64encode : Bytes → List Char
     b64Char (a.toNat / 4) :: b64Char (a.toNat % 4 * 16 + b.toNat / 16) ::
     b64Char (b.toNat % 16 * 4 + c.toNat / 64) :: b64Char (c.toNat % 64) :: b64encode rest
 
-/-! ### `urllib.parse.quote_plus(v)` (safe = '', UTF-8, strict) -/
+/-! ### `urllib.parse.quote_plus(v)` and `urllib.parse.quote(v, safe='')` (UTF-8, strict) -/
 
 /-- `_ALWAYS_SAFE`: ASCII letters, digits and `_.-~` -/
 def isSafeChar (c : Char) : Bool :=
@@ -52,23 +52,36 @@ def isSafeChar (c : Char) : Bool :=
 /-- upper-case hex digit, as in `'%{:02X}'` -/
 def hexUpper (n : Nat) : Char := if n < 10 then Char.ofNat (48 + n) else Char.ofNat (55 + n)
 
-/-- one byte of the UTF-8 encoding: kept when safe, `+` for a space, `%XX` otherwise -/
-def quoteByte (b : UInt8) : List Char :=
+/-- one byte of the UTF-8 encoding: kept when safe, `%XX` otherwise — except that `quote_plus` (`plus = true`)
+writes a space as `+` -/
+def quoteByte (plus : Bool) (b : UInt8) : List Char :=
   let c := Char.ofNat b.toNat
   if b.toNat < 128 && isSafeChar c then [c]
-  else if b.toNat = 32 then ['+']
+  else if plus && b.toNat = 32 then ['+']
   else ['%', hexUpper (b.toNat / 16), hexUpper (b.toNat % 16)]
 
-def quotePlusBytes (bs : Bytes) : List Char := bs.flatMap quoteByte
+def quoteBytes (plus : Bool) (bs : Bytes) : List Char := bs.flatMap (quoteByte plus)
 
-def quotePlus (s : Str) : Str := quotePlusBytes (utf8 s)
+/-- the two encoders, by flag -/
+def quoteWith (plus : Bool) (s : Str) : Str := quoteBytes plus (utf8 s)
+
+/-- `urllib.parse.quote_plus(s)` -/
+def quotePlus (s : Str) : Str := quoteWith true s
+
+/-- `urllib.parse.quote(s, safe='')` -/
+def quote (s : Str) : Str := quoteWith false s
 
 /-! ### `_escape_grouping_key(k, v)` -/
 
-def escapeGroupingKey (k v : Str) : Str × Str :=
+/-- `_escape_grouping_key` with the plain branch's encoder named by `plus`
+(`quote_plus(v)` when true, `quote(v, safe='')` when false) -/
+def escapeGroupingKeyWith (plus : Bool) (k v : Str) : Str × Str :=
   if v = [] then (k ++ base64Suffix, emptyMarker)
   else if isInfix slashLit v then (k ++ base64Suffix, b64encode (utf8 v))
-  else (k, quotePlus v)
+  else (k, quoteWith plus v)
+
+/-- `_escape_grouping_key(k, v)` as the source has it now (`Generated.Gateway.spaceAsPlus`) -/
+def escapeGroupingKey (k v : Str) : Str × Str := escapeGroupingKeyWith spaceAsPlus k v
 
 /-! ### the scheme test of `urlparse` -/
 
